@@ -55,6 +55,7 @@ type c17Op struct {
 	Dur  bool    `json:"dur,omitempty"`
 	Help B       `json:"help,omitempty"`
 	Ty   int     `json:"ty,omitempty"` // reg timer: -1 nil options, 0 summary, 1 histogram, 7 unknown
+	Root int     `json:"root,omitempty"` // decl: 1 = through a second root scope on the same reporter
 }
 
 type c17Case struct {
@@ -74,6 +75,7 @@ type c17Case struct {
 	ViaScope bool  `json:"via_scope,omitempty"`
 	Salt     int   `json:"salt,omitempty"`
 	Collide  bool  `json:"collide,omitempty"` // two specifications of equal bucket identity (informative)
+	Realloc  bool  `json:"realloc,omitempty"` // some series gets a second handle (informative)
 }
 
 // ---------------------------------------------------------------- environment
@@ -587,7 +589,137 @@ func c17RunDirect(c *c17Case) (out c17Out) {
 		setFail("values", "Gather returned an error")
 	}
 	out.params = []int64{1, int64(c.TimerType), c.CbMask, e.cbObs}
+	if out.fail == "" && !out.f17 && len(e.cbLog) == 0 && e.cbObs == 1 {
+		if pred, w := c17CheckDirectValues(c, fams, rb); w != "" {
+			setFail(pred, w)
+		}
+	}
 	return
+}
+
+// c17CheckDirectValues: the value part of the property for histories on the
+// reporter API in which nothing conflicts (one kind, key set and bucket
+// specification per name; the callback was never invoked).  Several handles
+// may have been allocated for one (name, tags): they are the same series - a
+// counter shows the sum over all of them, a gauge the latest report through
+// any of them, a timer / histogram every observation.
+func c17CheckDirectValues(c *c17Case, fams []*dto.MetricFamily, defb []int64) (string, string) {
+	if len(c.Pre) > 0 || (c.TimerType != 0 && c.TimerType != 1) {
+		return "", ""
+	}
+	type fam struct {
+		u          int
+		keys, spec string
+	}
+	famOf := map[string]fam{}
+	var hs []*c17Obj // one per handle
+	series := map[string]*c17Obj{}
+	var order []*c17Obj
+	for oi, o := range c.Ops {
+		switch o.Op {
+		case "reg":
+			return "", ""
+		case "alloc":
+			u := o.U
+			f := fam{u, strings.Join(c17Keys(o.Tags), "\x00"), fmt.Sprint(o.Spec)}
+			if g, ok := famOf[string(o.Name)]; ok && g != f {
+				return "", ""
+			}
+			famOf[string(o.Name)] = f
+			id := strings.Join(c17NameTags(o.Name, o.Tags), "\x00")
+			s := series[id]
+			if s == nil {
+				s = &c17Obj{u: u, name: string(o.Name), tags: o.Tags, spec: o.Spec}
+				if u >= 4 && len(o.Spec) == 0 {
+					return "", "" // empty specification: Prometheus substitutes its own bounds
+				}
+				series[id] = s
+				order = append(order, s)
+			}
+			hs = append(hs, s)
+		case "rep":
+			if o.O >= len(hs) {
+				continue
+			}
+			s := hs[o.O]
+			switch s.u {
+			case 1:
+				s.sum += o.V
+			case 2:
+				s.last, s.seq = o.V, oi+1
+			case 3:
+				s.samp = append(s.samp, o.V)
+			default:
+				for n := int64(0); n < o.N; n++ {
+					s.samp = append(s.samp, o.Up)
+				}
+				s.durObs = s.durObs || o.Dur
+			}
+		}
+	}
+	byName := map[string]*dto.MetricFamily{}
+	for _, f := range fams {
+		byName[f.GetName()] = f
+	}
+	for _, s := range order {
+		f := byName[s.name]
+		if f == nil {
+			return "values", fmt.Sprintf("no family %q gathered", s.name)
+		}
+		var m *dto.Metric
+		for _, x := range f.GetMetric() {
+			ok := len(x.GetLabel()) == len(s.tags)
+			for i := 0; ok && i < len(s.tags); i++ {
+				ok = x.GetLabel()[i].GetName() == string(s.tags[i][0]) && x.GetLabel()[i].GetValue() == string(s.tags[i][1])
+			}
+			if ok {
+				m = x
+			}
+		}
+		if m == nil {
+			return "series_per_tag_values", fmt.Sprintf("no series of %q with labels %v", s.name, s.tags)
+		}
+		obs := func(v int64) float64 {
+			if s.u == 3 || s.durObs {
+				return secOf(v)
+			}
+			return math.Float64frombits(uint64(v))
+		}
+		switch s.u {
+		case 1:
+			if m.GetCounter().GetValue() != float64(s.sum) {
+				return "values", fmt.Sprintf("counter %q%v: gathered %v, sum of the reports through all its handles %d", s.name, s.tags, m.GetCounter().GetValue(), s.sum)
+			}
+		case 2:
+			if fbits(m.GetGauge().GetValue()) != s.last {
+				return "values", fmt.Sprintf("gauge %q%v: gathered %v (bits %#x), latest report through any of its handles %v (bits %#x)", s.name, s.tags,
+					m.GetGauge().GetValue(), uint64(fbits(m.GetGauge().GetValue())), math.Float64frombits(uint64(s.last)), uint64(s.last))
+			}
+		default:
+			if s.u == 3 && c.TimerType == 0 {
+				if m.GetSummary().GetSampleCount() != uint64(len(s.samp)) {
+					return "values", fmt.Sprintf("timer %q%v: summary count %d, %d reports", s.name, s.tags, m.GetSummary().GetSampleCount(), len(s.samp))
+				}
+				continue
+			}
+			h := m.GetHistogram()
+			if h.GetSampleCount() != uint64(len(s.samp)) {
+				return "values", fmt.Sprintf("histogram %q%v: total %d, %d observations reported", s.name, s.tags, h.GetSampleCount(), len(s.samp))
+			}
+			for _, b := range h.GetBucket() {
+				var want uint64
+				for _, v := range s.samp {
+					if obs(v) <= b.GetUpperBound() {
+						want++
+					}
+				}
+				if b.GetCumulativeCount() != want {
+					return "values", fmt.Sprintf("histogram %q%v: cumulative count at %v is %d, observations <= bound: %d", s.name, s.tags, b.GetUpperBound(), b.GetCumulativeCount(), want)
+				}
+			}
+		}
+	}
+	return "", ""
 }
 
 type c17Obj struct {
@@ -604,6 +736,8 @@ type c17Obj struct {
 	sum   int64
 	last  int64
 	samp  []int64 // recorded values (bits or ns)
+	seq   int     // index of the last update (gauges sharing one series: the latest wins)
+	durObs bool   // direct mode: bucket bounds were given as durations
 }
 
 // c17Stuck counts the scope-mode cases that ended in a deadlock verdict; the
@@ -655,14 +789,24 @@ func c17RunScopeBody(c *c17Case, prog *atomic.Value) (out c17Out) {
 	var objs []*c17Obj
 	passBroken := false
 	recovered := -1
+	var root2 tally.Scope
+	var closer2 io.Closer
 	for oi := range c.Ops {
 		o := &c.Ops[oi]
 		prog.Store(fmt.Sprintf("op %d (%s u=%d %q, callback panics recovered so far: op %d)", oi, o.Op, o.U, o.Name, recovered))
 		if o.Op == "decl" {
 			ob := &c17Obj{u: o.U, name: string(o.Name), tags: o.Tags, spec: o.Spec}
-			sc := root
+			rt := root
+			if o.Root == 1 {
+				if root2 == nil {
+					root2, closer2 = tally.NewRootScope(tally.ScopeOptions{CachedReporter: e.rep, Separator: tp.DefaultSeparator,
+						SanitizeOptions: &tp.DefaultSanitizerOpts, OmitCardinalityMetrics: true}, 0)
+				}
+				rt = root2
+			}
+			sc := rt
 			if len(o.Tags) > 0 {
-				sc = root.Tagged(c17Tags(o.Tags))
+				sc = rt.Tagged(c17Tags(o.Tags))
 			}
 			in := Ev{K: 1, I: []int64{int64(o.U)}, S: c17NameTags(o.Name, o.Tags)}
 			switch o.U {
@@ -706,7 +850,12 @@ func c17RunScopeBody(c *c17Case, prog *atomic.Value) (out c17Out) {
 			if passBroken {
 				continue // a panic inside a pass leaves tally's registry locked
 			}
-			code, what := e.guarded(c, func() { tally.VerifReportOnce(root) })
+			code, what := e.guarded(c, func() {
+				tally.VerifReportOnce(root)
+				if root2 != nil {
+					tally.VerifReportOnce(root2)
+				}
+			})
 			if code != 0 {
 				passBroken = true
 				setFail("conflict_never_nil", fmt.Sprintf("op %d: report pass: code %d %s", oi, code, what))
@@ -728,7 +877,7 @@ func c17RunScopeBody(c *c17Case, prog *atomic.Value) (out c17Out) {
 			case o.Op == "upd" && ob.u == 2:
 				in = Ev{K: 3, I: []int64{int64(o.O), o.V}, F: 2}
 				ob.g.Update(math.Float64frombits(uint64(o.V)))
-				ob.last = o.V
+				ob.last, ob.seq = o.V, oi+1
 			case o.Op == "rec" && ob.u == 3:
 				in = Ev{K: 4, I: []int64{int64(o.O), o.V, fbits(secOf(o.V))}, F: 4}
 				ob.t.Record(time.Duration(o.V))
@@ -763,13 +912,18 @@ func c17RunScopeBody(c *c17Case, prog *atomic.Value) (out c17Out) {
 	}
 	out.params = []int64{0, int64(c.TimerType), c.CbMask, e.cbObs}
 	if out.fail == "" && c17Consistent(c) {
-		if pred, w := c17CheckValues(c, objs, fams, rb); w != "" {
+		if pred, w := c17CheckValues(c, c17MergeSeries(objs), fams, rb); w != "" {
 			setFail(pred, w)
 		}
 	}
 	if !passBroken {
 		prog.Store(fmt.Sprintf("Close of the root scope (callback panics recovered so far: op %d)", recovered))
-		if code, what := e.guarded(c, func() { closer.Close() }); code != 0 {
+		if code, what := e.guarded(c, func() {
+			closer.Close()
+			if closer2 != nil {
+				closer2.Close()
+			}
+		}); code != 0 {
 			setFail("conflict_never_nil", fmt.Sprintf("closing the root scope: code %d %s", code, what))
 		}
 	}
@@ -778,6 +932,35 @@ func c17RunScopeBody(c *c17Case, prog *atomic.Value) (out c17Out) {
 
 // c17Consistent: no name is used for two kinds / key sets / bucket specs, no
 // (name, tag values) pair is declared twice, nothing pre-registered clashes.
+// c17MergeSeries: objects with the same name and tag values (first used through
+// different root scopes of one reporter) feed ONE series: the counter shows the
+// sum over all of them, the gauge the latest update, the timer / histogram all
+// records.
+func c17MergeSeries(objs []*c17Obj) []*c17Obj {
+	var out []*c17Obj
+	at := map[string]*c17Obj{}
+	for _, ob := range objs {
+		if ob.dead {
+			continue
+		}
+		id := ob.name + "\x00" + fmt.Sprint(ob.tags)
+		m := at[id]
+		if m == nil {
+			cp := *ob
+			cp.samp = append([]int64{}, ob.samp...)
+			at[id] = &cp
+			out = append(out, &cp)
+			continue
+		}
+		m.sum += ob.sum
+		m.samp = append(m.samp, ob.samp...)
+		if ob.seq > m.seq {
+			m.last, m.seq = ob.last, ob.seq
+		}
+	}
+	return out
+}
+
 func c17Consistent(c *c17Case) bool {
 	type fam struct {
 		u    int
@@ -801,7 +984,7 @@ func c17Consistent(c *c17Case) bool {
 			return false
 		}
 		fams[string(o.Name)] = f
-		id := strings.Join(c17NameTags(o.Name, o.Tags), "\x00")
+		id := fmt.Sprint(o.Root, "\x00") + strings.Join(c17NameTags(o.Name, o.Tags), "\x00")
 		if seen[id] {
 			return false
 		}
@@ -1568,9 +1751,13 @@ func c17GenScope(r *Rng, i int) c17Case {
 	type obj struct {
 		f    int
 		tags [][2]B
+		root int
 	}
 	var pool []obj
 	seen := map[string]bool{}
+	// a second root scope on the same reporter first-uses some of the same
+	// (name, tags): a second handle on an existing series
+	second := !inconsistent && r.Chance(30)
 	for fi, f := range fams {
 		for k := r.Range(1, 3); k > 0; k-- {
 			t := r.c17Tags(f.keys, c17ValsScope)
@@ -1583,11 +1770,18 @@ func c17GenScope(r *Rng, i int) c17Case {
 				continue
 			}
 			seen[id] = true
-			pool = append(pool, obj{fi, t})
+			pool = append(pool, obj{fi, t, 0})
+			if second && r.Chance(60) {
+				pool = append(pool, obj{fi, t, 1})
+				c.Realloc = true
+			}
 		}
 	}
 	defb := c17ResolvedDefB(&c)
 	var declared []obj
+	sid := func(o obj) string { return fmt.Sprint(fams[o.f].name, o.tags) }
+	pending := map[string]int{}  // gauge series -> object with an unreported update
+	prev := map[string]int64{}   // gauge series -> bits of its latest update
 	steps := r.Range(4, 36)
 	for s := 0; s < steps; s++ {
 		if len(pool) > 0 && (len(declared) == 0 || r.Chance(25)) {
@@ -1595,12 +1789,13 @@ func c17GenScope(r *Rng, i int) c17Case {
 			ob := pool[k]
 			pool = append(pool[:k], pool[k+1:]...)
 			f := fams[ob.f]
-			c.Ops = append(c.Ops, c17Op{Op: "decl", U: f.u, Name: B(f.name), Tags: ob.tags, Spec: f.spec})
+			c.Ops = append(c.Ops, c17Op{Op: "decl", U: f.u, Name: B(f.name), Tags: ob.tags, Spec: f.spec, Root: ob.root})
 			declared = append(declared, ob)
 			continue
 		}
 		if r.Chance(12) {
 			c.Ops = append(c.Ops, c17Op{Op: "pass"})
+			pending = map[string]int{}
 			continue
 		}
 		k := r.Intn(len(declared))
@@ -1617,6 +1812,28 @@ func c17GenScope(r *Rng, i int) c17Case {
 			if r.Chance(30) {
 				v = math.Float64frombits(r.U64())
 			}
+			id := sid(declared[k])
+			if c.Realloc {
+				// boundary values for a handle's first and repeated reports
+				switch r.Intn(6) {
+				case 0, 1:
+					v = 0
+				case 2:
+					v = math.Copysign(0, -1)
+				case 3:
+					if p, ok := prev[id]; ok {
+						v = math.Float64frombits(uint64(p))
+					}
+				}
+			}
+			if o, ok := pending[id]; ok && o != k {
+				// two handles of one series must not both have an unreported update:
+				// which one a pass delivers last is not part of the property
+				c.Ops = append(c.Ops, c17Op{Op: "pass"})
+				pending = map[string]int{}
+			}
+			pending[id] = k
+			prev[id] = fbits(v)
 			c.Ops = append(c.Ops, c17Op{Op: "upd", O: k, V: fbits(v)})
 		case 3:
 			c.Ops = append(c.Ops, c17Op{Op: "rec", O: k, V: c17TimerSample(r, defb)})
@@ -1748,6 +1965,88 @@ func c17AfterPanic(a, b int, otherKeys bool, timerType int, cb string) c17Case {
 		{Op: "pass"},
 		{Op: "decl", U: a, Name: "later", Tags: t1, Spec: spec(a)}, rec(3, a),
 		{Op: "pass"},
+	}
+	return c
+}
+
+// c17GenRealloc: nothing conflicts, but a (name, tags) series is allocated
+// again and again on the same reporter — what a re-acquired Tagged sub-scope or
+// a second root scope does — and reports arrive through all its handles, with
+// the boundary values of a fresh handle: 0, -0, a repeat of the series' latest value.
+func c17GenRealloc(r *Rng, i int) c17Case {
+	c := c17Case{Mode: 1, TimerType: i % 2, Cb: "fn", Wrap: r.Bool(), DefBMode: 1,
+		DefB: []int64{fbits(0.001), fbits(0.5), fbits(2)}, Realloc: true}
+	type ser struct {
+		u    int
+		name string
+		tags [][2]B
+		spec []int64
+		prev int64
+	}
+	var sers []*ser
+	names := append([]string{}, c17Names...)
+	for k := r.Range(1, 3); k > 0; k-- {
+		j := r.Intn(len(names))
+		s := &ser{u: r.Range(1, 5), name: names[j], tags: r.c17Tags(r.c17KeySet(), c17ValsDirect)}
+		if i%3 == 0 {
+			s.u = 2
+		}
+		names = append(names[:j], names[j+1:]...)
+		if s.u == 4 {
+			s.spec = c17GenVSpec(r)
+		} else if s.u == 5 {
+			s.spec = c17GenDSpec(r)
+		}
+		sers = append(sers, s)
+	}
+	var hs []*ser
+	alloc := func(s *ser) {
+		c.Ops = append(c.Ops, c17Op{Op: "alloc", U: s.u, Name: B(s.name), Tags: s.tags, Spec: s.spec})
+		hs = append(hs, s)
+	}
+	for _, s := range sers {
+		alloc(s)
+	}
+	defb := c17ResolvedDefB(&c)
+	for n := r.Range(4, 16); n > 0; n-- {
+		if r.Chance(25) {
+			alloc(sers[r.Intn(len(sers))])
+			if r.Chance(50) {
+				continue
+			}
+		}
+		h := r.Intn(len(hs))
+		if r.Chance(50) {
+			h = len(hs) - 1 // the newest handle
+		}
+		s := hs[h]
+		op := c17Op{Op: "rep", O: h}
+		switch s.u {
+		case 1:
+			op.V = []int64{0, 1, 7, 1 << 33}[r.Intn(4)]
+		case 2:
+			v := c17GaugeVals[r.Intn(len(c17GaugeVals))]
+			switch r.Intn(6) {
+			case 0, 1:
+				v = 0
+			case 2:
+				v = math.Copysign(0, -1)
+			case 3:
+				v = math.Float64frombits(uint64(s.prev))
+			}
+			op.V = fbits(v)
+			s.prev = op.V
+		case 3:
+			op.V = c17TimerSample(r, defb)
+		case 4:
+			op.N = int64(r.Intn(4))
+			op.Up = s.spec[r.Intn(len(s.spec))]
+		default:
+			op.Dur = true
+			op.N = int64(r.Intn(4))
+			op.Up = s.spec[r.Intn(len(s.spec))]
+		}
+		c.Ops = append(c.Ops, op)
 	}
 	return c
 }
@@ -1968,6 +2267,9 @@ func init() {
 			if c.Collide {
 				stats["equal_identity_spec_cases"]++
 			}
+			if c.Realloc {
+				stats["second_handle_cases"]++
+			}
 		}
 		if ctx.Replay != nil {
 			var c c17Case
@@ -2101,6 +2403,13 @@ func init() {
 			c := c17GenDirect(ctx.R, i)
 			one(&c, "direct")
 		}
+		// second (third ...) handles on existing series, nothing conflicting
+		for i, n := 0, ctx.N(600, 15000); i < n; i++ {
+			c := c17GenRealloc(ctx.R, i)
+			toCoq = i%3 == 0
+			one(&c, "realloc")
+		}
+		toCoq = true
 		ctx.Res.Extra["deadlock_verdicts"] = c17Stuck
 		// concurrent first uses: G goroutines, same name and tag keys, at once
 		t0 := time.Now()
